@@ -13,7 +13,20 @@
 #include <string.h>
 
 /* ------------------------------------------------------------------ shapes */
-struct shape { int be, k, m, hd; };
+struct shape { int be, k, m, hd; int wv; };   /* wv: caller-supplied ec_args.w variant; 0 = the harness default (16 for rs_vand as the repository's tests pass it, unset otherwise) */
+#define WV_UNSET (-1)                          /* pass w = 0 (unset) explicitly */
+static const char *wtag(const struct shape *s)
+{
+    static char b[4][16]; static int r; if (!s->wv) return "";
+    char *o = b[r++ & 3]; if (s->wv == WV_UNSET) snprintf(o, 16, "/w-unset"); else snprintf(o, 16, "/w%d", s->wv); return o;
+}
+/* w values a caller may pass that the backend is documented to ignore (it stores its own word size back): the stripe must not depend on them */
+static int w_variants(int be, int *out)
+{
+    if (be == EC_BACKEND_LIBERASURECODE_RS_VAND) { out[0] = WV_UNSET; out[1] = 8; out[2] = 32; out[3] = 64; return 4; }
+    if (be == EC_BACKEND_FLAT_XOR_HD) { out[0] = 8; out[1] = 16; out[2] = 64; return 3; }
+    return 0;
+}
 static const char *be_name(int be)
 {
     switch (be) {
@@ -96,6 +109,7 @@ static int create_instance(const struct shape *sh, int ct)
     struct ec_args a; memset(&a, 0, sizeof a);
     a.k = sh->k; a.m = sh->m; a.hd = sh->hd; a.ct = ct; a.w = 0;
     if (sh->be == EC_BACKEND_LIBERASURECODE_RS_VAND) a.w = 16;
+    if (sh->wv) a.w = sh->wv == WV_UNSET ? 0 : sh->wv;
     return liberasurecode_instance_create(sh->be, &a);
 }
 
